@@ -17,7 +17,7 @@ ID = "C10"
 MANIFEST = {
     "category": "exploration",
     "text": "Generated-input search: package tables (1-5 package keys mapped to well-formed expressions that may themselves contain time conditions and packages, or mapped to nothing / absent) x condition and AHB expressions using those packages repeatedly, adjacently, with and without repeatability, plus time conditions. The tree from parse_expression_including_unresolved_subexpressions(resolve_packages=True, replace_time_conditions=True) - and from expand_packages / expand_time_conditions applied separately - must equal the tree of the textually substituted string parsed without resolution (exact equality; equality modulo regrouping inside one-operator runs is accepted and counted); a package without expression must abort with NotImplementedError; no coroutine may be left in the tree; exactly one level is expanded.",
-    "note": "Trusted: ref.subst_packages / subst_time (regular-expression substitution written from the statement), the plain parsers as judged by C01/C02. Bounded: <= 8/14 atoms per expression, <= 5 packages.",
+    "note": "Trusted: ref.subst_packages / subst_time (regular-expression substitution written from the statement), the plain parsers as judged by C01/C02. Bounded: <= 8/14 atoms per expression, <= 5 packages. Process configuration by shard (vlib/sut.py; recorded in replay files): plain / parse caches preheated beyond their size / warnings attributed to ahbicht raised as errors / logging fully enabled with every record rendered.",
     "technique": "property-based testing with a differential oracle (resolve(s) vs parse(textual substitution of s))",
 }
 LEVEL = "exploration"
